@@ -548,3 +548,61 @@ func (c *Ctx) EveryClass(fn *ssa.Function, atoms, names []string, must, loopCond
 		c.Fail("anchor", fnName, "K13: a loop `"+short(loopCond, 80)+"` calling "+must+" is present", "-", "not found")
 	}
 }
+
+// FullLoop (K2): the loop with condition `loop` is left only through the false edge of its own condition or towards
+// failure exits - no `break`, no early `return ok`: every element the loop ranges over is processed (a path component
+// that is skipped, a signer list that is cut short).
+func (c *Ctx) FullLoop(fn *ssa.Function, loop Cond, why string) {
+	if fn == nil {
+		return
+	}
+	fnName := load.QualName(fn)
+	what := "the loop `" + loop.Canon + "` is left only when its condition fails (or towards failure exits)"
+	les := CondEdges(fn, Cond{Canon: loop.Canon, Sense: true})
+	if len(les) == 0 {
+		c.Fail("K2", fnName, what, "-", "loop condition not found")
+		return
+	}
+	vs := sigOf(fn.Signature)
+	for _, le := range les {
+		c.Sites++
+		header := le.From
+		// blocks of the loop: reachable from the body entry without re-entering the header, and able to reach it
+		intoHeader := EdgeSet{}
+		for _, b := range fn.Blocks {
+			for i, s := range b.Succs {
+				if s == header {
+					intoHeader[Edge{b, i}] = true
+				}
+			}
+		}
+		fromBody := ReachFrom([]*ssa.BasicBlock{le.To()}, intoHeader)
+		toHeader := reachTo(header)
+		inLoop := func(b *ssa.BasicBlock) bool { return b == header || (fromBody[b] && toHeader[b]) }
+		var bad []string
+		for b := range fromBody {
+			if !inLoop(b) {
+				continue
+			}
+			for _, s := range b.Succs {
+				if inLoop(s) {
+					continue
+				}
+				// an exit from the body: tolerated only if it leads to failure returns alone
+				reach := ReachFrom([]*ssa.BasicBlock{s}, nil)
+				for _, ret := range Returns(fn) {
+					if reach[ret.Block()] && exitMayBeGood(ret, vs, nil, reach) {
+						bad = append(bad, c.At(b.Instrs[len(b.Instrs)-1]))
+						break
+					}
+				}
+			}
+		}
+		site := c.At(header.Instrs[len(header.Instrs)-1])
+		if len(bad) > 0 {
+			c.Fail("K2", fnName, what, site, "left early at "+strings.Join(uniq(bad), ", ")+" ("+why+")")
+		} else {
+			c.OK("K2", fnName, what, site, why)
+		}
+	}
+}
